@@ -1,13 +1,16 @@
 import FP.Proofs.CondWalkCover
 import FP.Proofs.Cover
 /-!
-# FP.Proofs.CondWalkCoverNeeds — the three added hypotheses of `condensation_flow_to_walkcover` are needed
+# FP.Proofs.CondWalkCoverNeeds — the two added hypotheses of `condensation_flow_to_walkcover` are needed
 
 Each theorem refutes the statement with one hypothesis dropped, on a concrete input:
 * `cwc_needs_closed`: an edge whose endpoints are not in the node list is invisible to the condensation;
-* `cwc_needs_no_isolated`: an isolated node is a component `source → k → sink` of the min-flow instance;
-* `cwc_needs_nodup`: a duplicate entry of `edges_to_ignore` lowers the demand on a condensation edge
-  below the number of its parallel edges that are still to be covered.
+* `cwc_needs_no_isolated`: an isolated node is a component `source → k → sink` of the min-flow instance.
+
+`cwc_duplicate_ignore_counts_once` is the regression for fix afcb013: an edge listed twice in
+`edges_to_ignore` used to decrement the multiplicity of its condensation edge twice (the demand fell
+below the number of parallel edges still to be covered and `get_width` came out too small); on the
+witness of that defect the demand is now 2, the theorem applies and 2 is the minimum walk cover.
 -/
 namespace FP
 open FP.Spec
@@ -29,7 +32,6 @@ theorem cwc_needs_closed : ¬ ∀ (c : CondInput) (w d : List (Edge × Int)) (f 
       c.comp u = c.comp v ↔ (Reach c.g.edges u v ∧ Reach c.g.edges v u)) →
     (∀ e ∈ c.g.edges, Reach c.g.edges srcName e.1 ∧ Reach c.g.edges e.2 snkName) →
     (∀ v ∈ c.g.nodes, ∃ e ∈ c.g.edges, e.1 = v ∨ e.2 = v) →
-    c.ignore.Nodup →
     c.weightFunction = some w → c.demands = some d →
     CoveringFlow c.expandedST (fun e => (lookupD d e 0).toNat) f →
     outN c.expandedST.g f c.expandedST.source = cost →
@@ -42,7 +44,7 @@ theorem cwc_needs_closed : ¬ ∀ (c : CondInput) (w d : List (Edge × Int)) (f 
       subst this
       exact ⟨Reach.refl _, Reach.refl _⟩)
     (fun v hv => by simp [cwcBad1] at hv)
-    (by decide) (by decide) (by decide) ⟨by decide, by decide⟩ (by decide)
+    (by decide) (by decide) ⟨by decide, by decide⟩ (by decide)
   obtain ⟨routes, hl, _, hc, _⟩ := this
   have hr : routes = [] := List.eq_nil_of_length_eq_zero hl
   subst hr
@@ -58,7 +60,6 @@ theorem cwc_needs_no_isolated : ¬ ∀ (c : CondInput) (w d : List (Edge × Int)
       c.comp u = c.comp v ↔ (Reach c.g.edges u v ∧ Reach c.g.edges v u)) →
     (∀ e ∈ c.g.edges, Reach c.g.edges srcName e.1 ∧ Reach c.g.edges e.2 snkName) →
     (∀ e ∈ c.g.edges, e.1 ∈ c.g.nodes ∧ e.2 ∈ c.g.nodes) →
-    c.ignore.Nodup →
     c.weightFunction = some w → c.demands = some d →
     CoveringFlow c.expandedST (fun e => (lookupD d e 0).toNat) f →
     outN c.expandedST.g f c.expandedST.source = cost →
@@ -72,7 +73,7 @@ theorem cwc_needs_no_isolated : ¬ ∀ (c : CondInput) (w d : List (Edge × Int)
       exact ⟨fun _ => ⟨Reach.refl _, Reach.refl _⟩, fun _ => rfl⟩)
     (fun e he => by simp [cwcBad2] at he)
     (fun e he => by simp [cwcBad2] at he)
-    (by decide) (by decide) (by decide) ⟨by decide, by decide⟩ (by decide)
+    (by decide) (by decide) ⟨by decide, by decide⟩ (by decide)
   obtain ⟨routes, hl, hrs, _, _⟩ := this
   cases routes with
   | nil => simp at hl
@@ -90,39 +91,65 @@ theorem cwc_needs_no_isolated : ¬ ∀ (c : CondInput) (w d : List (Edge × Int)
         rw [walkEdges_cons_cons]; exact List.mem_cons_self)
       simp [cwcBad2] at this
 
-/-! ## `hnd` -/
+/-! ## duplicates in `edges_to_ignore` (regression for fix afcb013) -/
 
 /-- three parallel edges from the source into the cycle `a → b → c → a`; `source → a` ignored twice -/
-def cwcBad3 : CondInput :=
+def cwcDup : CondInput :=
   { g := { nodes := ["source", "a", "b", "c", "sink"],
            edges := [("source", "a"), ("source", "b"), ("source", "c"), ("a", "b"), ("a", "sink"),
                      ("b", "c"), ("c", "a")] },
     scc := [("sink", 0), ("a", 1), ("b", 1), ("c", 1), ("source", 2)],
     ignore := [("source", "a"), ("source", "a")] }
 
-theorem cwcBad3_closed : ∀ e ∈ cwcBad3.g.edges, e.1 ∈ cwcBad3.g.nodes ∧ e.2 ∈ cwcBad3.g.nodes := by decide
+theorem cwcDup_closed : ∀ e ∈ cwcDup.g.edges, e.1 ∈ cwcDup.g.nodes ∧ e.2 ∈ cwcDup.g.nodes := by decide
 
 set_option maxRecDepth 20000 in
-theorem cwc_needs_nodup : ¬ ∀ (c : CondInput) (w d : List (Edge × Int)) (f : Edge → Nat) (cost : Nat),
-    (∀ u ∈ c.g.nodes, ∀ v ∈ c.g.nodes,
-      c.comp u = c.comp v ↔ (Reach c.g.edges u v ∧ Reach c.g.edges v u)) →
-    (∀ e ∈ c.g.edges, Reach c.g.edges srcName e.1 ∧ Reach c.g.edges e.2 snkName) →
-    (∀ e ∈ c.g.edges, e.1 ∈ c.g.nodes ∧ e.2 ∈ c.g.nodes) →
-    (∀ v ∈ c.g.nodes, ∃ e ∈ c.g.edges, e.1 = v ∨ e.2 = v) →
-    c.weightFunction = some w → c.demands = some d →
-    CoveringFlow c.expandedST (fun e => (lookupD d e 0).toNat) f →
-    outN c.expandedST.g f c.expandedST.source = cost →
-    HasCover ⟨c.g, srcName, snkName⟩ (c.g.edges.filter fun e => !c.ignore.contains e) [] cost := by
-  intro h
-  have hcov := h cwcBad3 (cwcBad3.weightFunction.getD []) (cwcBad3.demands.getD []) (fun _ => 1) 1
-    (cwc_scc_of_reachFrom cwcBad3 cwcBad3_closed (by decide))
-    (cwc_live_of_reachFrom cwcBad3.g (by decide))
-    cwcBad3_closed (by decide) (by decide) (by decide) ⟨by decide, by decide⟩ (by decide)
-  have := antichain_weak_duality ⟨cwcBad3.g, srcName, snkName⟩ _ []
+theorem cwcDup_scc : ∀ u ∈ cwcDup.g.nodes, ∀ v ∈ cwcDup.g.nodes,
+    cwcDup.comp u = cwcDup.comp v ↔ (Reach cwcDup.g.edges u v ∧ Reach cwcDup.g.edges v u) :=
+  cwc_scc_of_reachFrom cwcDup cwcDup_closed (by decide)
+
+set_option maxRecDepth 20000 in
+theorem cwcDup_live :
+    ∀ e ∈ cwcDup.g.edges, Reach cwcDup.g.edges srcName e.1 ∧ Reach cwcDup.g.edges e.2 snkName :=
+  cwc_live_of_reachFrom cwcDup.g (by decide)
+
+set_option maxRecDepth 20000 in
+/-- one walk does not cover the two parallel edges `source → b`, `source → c` that are not ignored -/
+theorem cwcDup_not_one : ¬ HasCover ⟨cwcDup.g, srcName, snkName⟩
+    (cwcDup.g.edges.filter fun e => !cwcDup.ignore.contains e) [] 1 := by
+  intro hcov
+  have := antichain_weak_duality ⟨cwcDup.g, srcName, snkName⟩ _ []
     [("source", "b"), ("source", "c")]
-    (antichain_of_unreachable ⟨cwcBad3.g, srcName, snkName⟩ _ (by decide)
-      (cwc_unreachable_of_reachFrom cwcBad3.g cwcBad3_closed _ (by decide) (by decide)))
+    (antichain_of_unreachable ⟨cwcDup.g, srcName, snkName⟩ _ (by decide)
+      (cwc_unreachable_of_reachFrom cwcDup.g cwcDup_closed _ (by decide) (by decide)))
     (by decide) 1 hcov
   simp at this
+
+set_option maxRecDepth 20000 in
+/-- **regression (fix afcb013).** with `source → a` listed twice among the ignored edges the demand on
+the condensation edge `source-SCC → cycle` is `3 - 1 = 2` (it was `3 - 2 = 1`); two units along
+`source 2 1 1_expanded 0 sink` are a covering flow, `condensation_flow_to_walkcover` turns them into
+two walks covering every edge that is not ignored; one walk does not suffice, and accordingly no
+covering flow has cost 1 any more -/
+theorem cwc_duplicate_ignore_counts_once :
+    lookupD (cwcDup.demands.getD []) ("2", "1") 0 = 2 ∧
+    CoveringFlow cwcDup.expandedST (fun e => (lookupD (cwcDup.demands.getD []) e 0).toNat) (fun _ => 2) ∧
+    HasCover ⟨cwcDup.g, srcName, snkName⟩
+      (cwcDup.g.edges.filter fun e => !cwcDup.ignore.contains e) [] 2 ∧
+    (¬ HasCover ⟨cwcDup.g, srcName, snkName⟩
+      (cwcDup.g.edges.filter fun e => !cwcDup.ignore.contains e) [] 1) ∧
+    ∀ f : Edge → Nat,
+      CoveringFlow cwcDup.expandedST (fun e => (lookupD (cwcDup.demands.getD []) e 0).toNat) f →
+      outN cwcDup.expandedST.g f cwcDup.expandedST.source ≠ 1 := by
+  have hflow : CoveringFlow cwcDup.expandedST
+      (fun e => (lookupD (cwcDup.demands.getD []) e 0).toNat) (fun _ => 2) := ⟨by decide, by decide⟩
+  refine ⟨by decide, hflow, ?_, cwcDup_not_one, ?_⟩
+  · exact cwc_condensation_flow_to_walkcover cwcDup (cwcDup.weightFunction.getD [])
+      (cwcDup.demands.getD []) (fun _ => 2) 2 cwcDup_scc cwcDup_live cwcDup_closed (by decide)
+      (by decide) (by decide) hflow (by decide)
+  · intro f hf hcost
+    exact cwcDup_not_one (cwc_condensation_flow_to_walkcover cwcDup (cwcDup.weightFunction.getD [])
+      (cwcDup.demands.getD []) f 1 cwcDup_scc cwcDup_live cwcDup_closed (by decide)
+      (by decide) (by decide) hf hcost)
 
 end FP
